@@ -16,7 +16,7 @@ PID = "C09"
 RULE = (
     "histories of add / refresh / stop / remove-all-for-address / remove-all / re-add / add refused by the 'new' callback over 2 addresses x 3 keys with TTLs "
     "from {1,2,3,0xFFFFFE,inf}, objects constructed inside the running loop or before it runs, executed (a) on TimedStore directly, (b) as offer / stop-offer / reboot-revealing datagrams "
-    "and connection loss through ServiceDiscover, (c) as Subscribe / StopSubscribe datagrams and service stop/start through "
+    "and connection loss through ServiceDiscover (observed through watch-all or through wildcard filters next to exact filters of a second listener that are withdrawn on the way), (c) as Subscribe / StopSubscribe datagrams and service stop/start through "
     "ServiceInstance; steps timed by delays from {0.25,0.5,1,2,3,1e6,2e7} or relative to the pending expiry timer with "
     "offsets -4RES/-RES/4/+RES/4/+4RES/halfway; every history is run past 0xFFFFFF virtual seconds. exhaustive: all "
     "histories of bounded length over a 9-letter alphabet for modes (a) and (b). non-trivial = a refresh with a different "
@@ -75,7 +75,7 @@ when_st = st.one_of(
 
 @st.composite
 def _step(draw):
-    op = draw(st.sampled_from(["add"] * 6 + ["stop", "stop", "rmaddr", "rmall", "rmmatch"]))
+    op = draw(st.sampled_from(["add"] * 6 + ["stop", "stop", "rmaddr", "rmall", "rmmatch", "unwatch-extra"]))
     s = {"op": op, "when": draw(when_st), "a": draw(st.integers(0, 1)), "k": draw(st.integers(0, 2))}
     if op == "add":
         s["ttl"] = draw(st.sampled_from([1, 1, 2, 3, 0xFFFFFE, INF]))
@@ -86,8 +86,8 @@ def _step(draw):
 
 def strategy(tier):
     # outside: the objects are constructed before the loop runs (another loop is the thread's current one then)
-    return st.builds(lambda m, steps, o: {"mode": m, "steps": steps, "outside": o}, st.sampled_from(MODES), st.lists(_step(), min_size=1, max_size=12),
-                     st.sampled_from([False, False, True]))
+    return st.builds(lambda m, steps, o, f: {"mode": m, "steps": steps, "outside": o, "filters": f}, st.sampled_from(MODES), st.lists(_step(), min_size=1, max_size=12),
+                     st.sampled_from([False, False, True]), st.booleans())
 
 
 def fixed_cases(tier):
@@ -193,9 +193,28 @@ class DiscoverBackend(_SDBackend):
         self.prot = make_sd(sim)
         self.raw = []
         self.pos = 0
+        self.filters = False
 
     def start(self):
-        self.prot.discovery.watch_all_services(ClientRec(self.sim, self.raw, "L"))
+        L = ClientRec(self.sim, self.raw, "L")
+        if not self.filters:
+            self.prot.discovery.watch_all_services(L)
+            return
+        # filters instead of watch-all: one wildcard filter per service id for the observed listener, plus exact filters of
+        # another listener on the same service ids, which may be withdrawn during the history
+        for sid in sorted(set(s[0] for s in SVC)):
+            self.prot.discovery.watch_service(cfg.Service(sid), L)
+        self.extra = ClientRec(self.sim, [], "M")
+        self.extra_on = set()
+        for k in (0, 2):
+            self.prot.discovery.watch_service(cfg.Service(*SVC[k]), self.extra)
+            self.extra_on.add(k)
+
+    def unwatch_extra(self, k):
+        k = 0 if k % 3 != 2 else 2
+        if self.filters and k in self.extra_on:
+            self.extra_on.discard(k)
+            self.prot.discovery.stop_watch_service(cfg.Service(*SVC[k]), self.extra)
 
     def sync(self):
         for t, _, kind, key, src in self.raw[self.pos:]:
@@ -288,6 +307,8 @@ def run_case(case):
                 be = BACKENDS[mode](sim, log)
         else:
             be = BACKENDS[mode](sim, log)
+        if mode == "discover":
+            be.filters = bool(case.get("filters"))
         be.start()
         sim.advance(0.05)
         model = TTLModel("C09", {"new": True, "rejected": False}, optional_new=False)
@@ -332,6 +353,9 @@ def run_case(case):
             elif op == "rmaddr":
                 if be.rmaddr(a):
                     events.append(("end", lambda q, _a=ADDRS[a]: q[0] == _a, "remove-all-for-address"))
+            elif op == "unwatch-extra":
+                if mode == "discover":
+                    be.unwatch_extra(k)
             elif op == "rmall":
                 be.rmall()
                 events.append(("end", lambda q: True, "remove-all"))
